@@ -25,6 +25,8 @@ Inductive recipe :=
 | RWithMessagef (r : recipe) (f : list fpiece)
 | RWithStack (r : recipe)
 | RHint (r : recipe) (h : str)
+| RHintf (r : recipe) (f : list fpiece)     (* errors.WithHintf: the hint is fmt.Sprintf(format, args...) *)
+| RDetailf (r : recipe) (f : list fpiece)   (* errors.WithDetailf *)
 | RDetail (r : recipe) (d : str)
 | RIssueLink (r : recipe) (url det : str)
 | RTelemetry (r : recipe) (keys : list str)
@@ -245,6 +247,8 @@ Fixpoint build (r : recipe) (s : bstate) {struct r} : option err * bstate :=
     on_f r f s (fun e b s2 => mk_wrap (WPrefix (sprint_pieces (bf_pieces b))) e s2)
   | RWithStack r => on r s (with_stack env)
   | RHint r h => on r s (mk_wrap (WHint h))
+  | RHintf r f => on_f r f s (fun e b s1 => mk_wrap (WHint (bf_plain b)) e s1)
+  | RDetailf r f => on_f r f s (fun e b s1 => mk_wrap (WDetail (bf_plain b)) e s1)
   | RDetail r d => on r s (mk_wrap (WDetail d))
   | RIssueLink r url det => on r s (mk_wrap (WIssueLink url det))
   | RTelemetry r keys => on r s (mk_wrap (WTelemetry keys))
